@@ -957,6 +957,15 @@ def r104(ctx, rid="R-10.4"):
         raise AnalysisError(f"R-10.4: calc_cv_vector has {len(loops)} top-level loops (expected 1 over the interfaces)")
     L = loops[0]
     it, tgt = L.iter, L.target
+    # entries added outside the loop over the interfaces are not computed by the per-ensemble rule
+    loose = [c for st in f.body if st is not L for c in ast.walk(st) if isinstance(c, ast.Call) and isinstance(c.func, ast.Attribute) and c.func.attr in ("append", "insert", "extend") and isinstance(c.func.value, ast.Name)
+             and any(isinstance(r.value, (ast.Name, ast.Call)) and c.func.value.id in {x.id for x in ast.walk(r.value) if isinstance(x, ast.Name)} for r, _f in plain_rets if r.value is not None)]
+    loose = [c for c in loose if cfg.reaches(cfg.node_of(c), cfg.node_of(L))]  # before the loop (the closing 0.0 for the last interface comes after it)
+    for c in loose:
+        ctx.bad(rid, c, f"calc_cv_vector adds an entry to the weight vector outside the loop over the interfaces (`{short(c, 50)}`): that entry is not computed by the rule of its ensemble - with `wf` as the move of that ensemble it must be the wire-fencing weight of the path (frame count between interface and cap, doubled for a path connecting both outer sides, 0 for a path that jumps the region), so the state matrix and the data file disagree with what wire_fencing / subt_acceptance compute",
+                construct=f"calc_cv_vector: entry outside the interface loop: {short(c, 40)}")
+    if loose:
+        return
     if not (isinstance(it, ast.Call) and last_name(it) == "enumerate" and it.args and ast.unparse(it.args[0]).replace(" ", "") == "interfaces[:-1]"
             and len(it.args) == 1 and not it.keywords and isinstance(tgt, ast.Tuple) and len(tgt.elts) == 2 and all(isinstance(x, ast.Name) for x in tgt.elts)):
         raise AnalysisError(f"R-10.4: the loop of calc_cv_vector is `{short(L, 60)}`, not `for idx, intf in enumerate(interfaces[:-1])` (cannot decide)")
@@ -1374,6 +1383,7 @@ _SCAN_EMIT = "            path_arr.append((isave, i + 1, i - isave))"
 _JUMP = "        if (op1 < left and op2 >= right) or (op2 < left and op1 >= right):\n            pass\n        elif op2 >= left > op1 and not key_l:"
 
 VARIANTS = [
+    B("c10-first-weight-entry-constant", "infretis/core/tis.py", "    for idx, intf_i in enumerate(interfaces[:-1]):\n        if moves[idx + 1] == \"wf\":", "    cv.append(1.0)\n    for idx, intf_i in enumerate(interfaces[1:-1], start=1):\n        if moves[idx + 1] == \"wf\":", "R-10.4", control=True, why="seeded C10_k"),
     B("c10-wf-triple-starts-at-lambda-minus-one", "infretis/core/tis.py", "    cv = []\n    if minus:\n        if lambda_minus_one is not False:\n            return (1.0 if lambda_minus_one <= path_max else 0.0,)\n        else:\n            return (1.0 if interfaces[0] <= path_max else 0.0,)\n", "    left = interfaces[0] if lambda_minus_one is False else lambda_minus_one\n\n    cv = []\n    if minus:\n        return (1.0 if left <= path_max else 0.0,)\n", "R-10.4", control=True, also=[("infretis/core/tis.py", "            intfs = [interfaces[0], intf_i, intf_cap]\n            cv.append(compute_weight(path, intfs, moves[idx + 1]))", "            intfs = [left, intf_i, intf_cap]\n            cv.append(compute_weight(path, intfs, moves[idx + 1]))")], why="seeded C10_j"),
     K("c10-keep-minus-boundary-computed-once", "infretis/core/tis.py", "    cv = []\n    if minus:\n        if lambda_minus_one is not False:\n            return (1.0 if lambda_minus_one <= path_max else 0.0,)\n        else:\n            return (1.0 if interfaces[0] <= path_max else 0.0,)\n", "    left = interfaces[0] if lambda_minus_one is False else lambda_minus_one\n\n    cv = []\n    if minus:\n        return (1.0 if left <= path_max else 0.0,)\n", why="the [0-] branch of seed C10_j alone is an equivalent rewrite"),
     B("c10-scan-reads-flattened-order-vectors", TIS, "    for i in range(len(path.phasepoints[:-1])):\n        op1 = path.phasepoints[i].order[0]\n        op2 = path.phasepoints[i + 1].order[0]\n", "    orders = np.ravel([pp.order for pp in path.phasepoints])\n    for i in range(len(path.phasepoints[:-1])):\n        op1, op2 = orders[i], orders[i + 1]\n", "R-10.1", control=True, why="seeded C10_h"),
